@@ -208,6 +208,9 @@ def run(ctx, rep):
     s = run_rule(ctx, rep, "SUBSCRIPT", S.subscript_sinks, allow)
     check_controls(rep, "SUBSCRIPT", s, ["subscript_bad"], ["subscript_ok"])
     rep.floor("SUBSCRIPT obligations", len([o for o in s if not o.control]), 12)
+    lb = run_rule(ctx, rep, "LOOPBOUND", S.loopbound_sinks, allow)
+    check_controls(rep, "LOOPBOUND", lb, ["loop_bad", "loopiter_bad"], ["loop_ok"])
+    rep.floor("LOOPBOUND obligations", len([o for o in lb if not o.control]), 18)
     prim = load_table("primitives.json")
     dec_scope = [ctx.F.fns[k] for k in ctx.reach("decode") if k in ctx.F.fns]
     dec_scope += [f for f in ctx.F.fns.values() if f.name.startswith("verif_control::prim_")]
